@@ -223,6 +223,10 @@ pub fn compare_directory(case: &DirCase, models: &[Vec<EntryModel>], view: &File
             for (name, v) in &em.vals {
                 let expected = match v {
                     Val::Ref(t) => resolved_ref(st, name, inverse[*t]),
+                    Val::RefO(ts, t) => {
+                        let o = final_order(&case.stores[*ts], &models[*ts]);
+                        Val::U(o.iter().position(|e| e == t).unwrap_or(0) as u64)
+                    }
                     o => o.clone(),
                 };
                 match de.vals.get(name) {
